@@ -33,8 +33,8 @@ for i in range(1,21):
 asbuilt="\n".join(arows)
 p=f'{ROOT}/DESIGN.md'
 s=open(p).read()
-s=re.sub(r'<!-- BEGIN:findings -->.*?<!-- END:findings -->', '<!-- BEGIN:findings -->\n'+findings+'\n<!-- END:findings -->', s, flags=re.S)
-s=re.sub(r'<!-- BEGIN:seeds -->.*?<!-- END:seeds -->', '<!-- BEGIN:seeds -->\n'+seeds+'\n<!-- END:seeds -->', s, flags=re.S)
+s=re.sub(r'<!-- BEGIN:findings -->.*?<!-- END:findings -->', lambda m: '<!-- BEGIN:findings -->\n'+findings+'\n<!-- END:findings -->', s, flags=re.S)
+s=re.sub(r'<!-- BEGIN:seeds -->.*?<!-- END:seeds -->', lambda m: '<!-- BEGIN:seeds -->\n'+seeds+'\n<!-- END:seeds -->', s, flags=re.S)
 s=re.sub(r'<!-- BEGIN:asbuilt -->.*?<!-- END:asbuilt -->', lambda m: '<!-- BEGIN:asbuilt -->\n'+asbuilt+'\n<!-- END:asbuilt -->', s, flags=re.S)
 open(p,'w').write(s)
 print('findings:',len(kf),'seeds:',len(srows)-2)
